@@ -342,4 +342,415 @@ theorem KK_nonneg (xs : List Rat) (y : Rat) : 0 ≤ KK xs y := by
   obtain ⟨b, _, rfl⟩ := List.mem_map.mp hw
   exact K_nonneg a b y
 
+open SV.Model.CrpsEns
+
+/-! ## 6. the `Fl` model on finite inputs -/
+
+theorem valid_map_fin (l : List Rat) : valid (l.map Fl.fin) = l.map Fl.fin := by
+  unfold valid
+  apply List.filter_eq_self.mpr
+  intro x hx
+  obtain ⟨a, _, rfl⟩ := List.mem_map.mp hx
+  rfl
+
+theorem foldl_add_fin : ∀ (l : List Rat) (c : Rat), (l.map Fl.fin).foldl Fl.add (Fl.fin c) = Fl.fin (c + l.sum)
+  | [], c => by simp
+  | a :: l, c => by
+    simp only [List.map_cons, List.foldl_cons, Fl.add_fin, foldl_add_fin l (c + a), List.sum_cons]
+    rw [add_assoc]
+
+theorem fsum_map_fin (l : List Rat) : fsum (l.map Fl.fin) = Fl.fin l.sum := by
+  unfold fsum
+  have := foldl_add_fin l 0
+  simpa using this
+
+theorem nansum_map_fin (l : List Rat) : nansum (l.map Fl.fin) = Fl.fin l.sum := by
+  unfold nansum; rw [valid_map_fin, fsum_map_fin]
+
+theorem count_map_fin (l : List Rat) : count (l.map Fl.fin) = l.length := by
+  unfold count; rw [valid_map_fin]; simp
+
+theorem nanmean_map_fin {l : List Rat} (h : l ≠ []) : nanmean (l.map Fl.fin) = Fl.fin (l.sum / l.length) := by
+  unfold nanmean
+  simp only [valid_map_fin, fsum_map_fin]
+  have hM : (l.length : Rat) ≠ 0 := by
+    have : l.length ≠ 0 := by simpa using h
+    exact_mod_cast this
+  simp [h, Fl.ofNat, Fl.div_fin _ _ hM]
+
+theorem spreadRow_fin (xs : List Rat) (a : Rat) :
+    spreadRow (xs.map Fl.fin) (Fl.fin a) = Fl.fin ((xs.map fun b => |b - a|).sum) := by
+  unfold spreadRow
+  rw [List.map_map]
+  have : ((fun xj => Fl.abs (Fl.sub xj (Fl.fin a))) ∘ Fl.fin) = Fl.fin ∘ (fun b => |b - a|) := by
+    funext b; simp
+  rw [this, ← List.map_map, nansum_map_fin]
+
+theorem spreadRaw_fin (xs : List Rat) : spreadRaw (xs.map Fl.fin) = Fl.fin (pairAbs xs) := by
+  unfold spreadRaw
+  rw [List.map_map]
+  have : (spreadRow (xs.map Fl.fin) ∘ Fl.fin) = Fl.fin ∘ (fun a => (xs.map fun b => |a - b|).sum) := by
+    funext a; simp only [Function.comp, spreadRow_fin]; simp only [abs_sub_comm]
+  rw [this, ← List.map_map, fsum_map_fin]; rfl
+
+theorem ensCount_fin (xs : List Rat) : ensCount (xs.map Fl.fin) = (xs.length : Int) := by
+  unfold ensCount; rw [count_map_fin]
+
+theorem fcstObsTerm_fin {xs : List Rat} (hx : xs ≠ []) (y : Rat) :
+    fcstObsTerm (xs.map Fl.fin) (Fl.fin y) = Fl.fin (absSum xs y / xs.length) := by
+  unfold fcstObsTerm
+  rw [List.map_map]
+  have : ((fun x => Fl.abs (Fl.sub x (Fl.fin y))) ∘ Fl.fin) = Fl.fin ∘ (fun x => |x - y|) := by
+    funext b; simp
+  rw [this, ← List.map_map, nanmean_map_fin (by simpa using hx)]
+  simp [absSum]
+
+theorem length_ne_zero {xs : List Rat} (hx : xs ≠ []) : (xs.length : Rat) ≠ 0 := by
+  have : xs.length ≠ 0 := by simpa using hx
+  exact_mod_cast this
+
+theorem spreadTerm_ecdf_fin {xs : List Rat} (hx : xs ≠ []) :
+    spreadTerm .ecdf (xs.map Fl.fin) = Fl.fin (pairAbs xs / (2 * (xs.length : Rat) ^ 2)) := by
+  unfold spreadTerm spreadDen
+  rw [spreadRaw_fin, ensCount_fin]
+  have hM := length_ne_zero hx
+  have e : Fl.ofInt (2 * (xs.length : Int) ^ 2) = Fl.fin (2 * (xs.length : Rat) ^ 2) := by
+    unfold Fl.ofInt; congr 1; push_cast; ring
+  rw [e, Fl.div_fin _ _ (by positivity)]
+
+theorem spreadTerm_fair_fin {xs : List Rat} (hx : 2 ≤ xs.length) :
+    spreadTerm .fair (xs.map Fl.fin) = Fl.fin (pairAbs xs / (2 * (xs.length : Rat) * ((xs.length : Rat) - 1))) := by
+  unfold spreadTerm spreadDen
+  rw [spreadRaw_fin, ensCount_fin]
+  have h2 : (2 : Rat) ≤ xs.length := by exact_mod_cast hx
+  have e : Fl.ofInt (2 * (xs.length : Int) * ((xs.length : Int) - 1)) = Fl.fin (2 * (xs.length : Rat) * ((xs.length : Rat) - 1)) := by
+    unfold Fl.ofInt; congr 1; push_cast; ring
+  have hne : 2 * (xs.length : Rat) * ((xs.length : Rat) - 1) ≠ 0 := by
+    apply mul_ne_zero <;> [apply mul_ne_zero; skip] <;> linarith
+  rw [e, Fl.div_fin _ _ hne]
+
+theorem total_ecdf_fin {xs : List Rat} (hx : xs ≠ []) (y : Rat) :
+    total .ecdf (xs.map Fl.fin) (Fl.fin y) = Fl.fin (kernelEcdf xs y) := by
+  unfold total
+  rw [fcstObsTerm_fin hx, spreadTerm_ecdf_fin hx, Fl.sub_fin]; rfl
+
+theorem total_fair_fin {xs : List Rat} (hx : 2 ≤ xs.length) (y : Rat) :
+    total .fair (xs.map Fl.fin) (Fl.fin y) = Fl.fin (kernelFair xs y) := by
+  unfold total
+  have hne : xs ≠ [] := by intro h; simp [h] at hx
+  rw [fcstObsTerm_fin hne, spreadTerm_fair_fin hx, Fl.sub_fin]; rfl
+
+theorem total_fair_single (a : Rat) (y : Fl) : total .fair [Fl.fin a] y = Fl.nan := by
+  have h := spreadRaw_fin [a]
+  simp only [List.map_cons, List.map_nil] at h
+  unfold total spreadTerm spreadDen
+  rw [h]
+  have e : ensCount [Fl.fin a] = 1 := by have := ensCount_fin [a]; simpa using this
+  rw [e]
+  simp [pairAbs, Fl.ofInt]
+
+/-! ## 7. components on finite inputs -/
+
+def underSum (xs : List Rat) (y : Rat) : Rat := (xs.map fun x => if x < y then y - x else 0).sum
+def overSum (xs : List Rat) (y : Rat) : Rat := (xs.map fun x => if y < x then x - y else 0).sum
+
+theorem under_fin {xs : List Rat} (hx : xs ≠ []) (y : Rat) :
+    under (xs.map Fl.fin) (Fl.fin y) = Fl.fin (underSum xs y / xs.length) := by
+  unfold under
+  rw [List.map_map]
+  have : ((fun x => Fl.whereB (Fl.whereB (Fl.sub (Fl.fin y) x) (Fl.gt (Fl.fin y) x) (Fl.fin 0)) (mask x (Fl.fin y))) ∘ Fl.fin)
+      = Fl.fin ∘ (fun x => if x < y then y - x else 0) := by
+    funext b
+    by_cases h : b < y <;> simp [Fl.whereB, mask, h]
+  rw [this, ← List.map_map, nanmean_map_fin (by simpa using hx)]
+  simp [underSum]
+
+theorem over_fin {xs : List Rat} (hx : xs ≠ []) (y : Rat) :
+    over (xs.map Fl.fin) (Fl.fin y) = Fl.fin (overSum xs y / xs.length) := by
+  unfold over
+  rw [List.map_map]
+  have : ((fun x => Fl.whereB (Fl.whereB (Fl.sub x (Fl.fin y)) (Fl.gt x (Fl.fin y)) (Fl.fin 0)) (mask x (Fl.fin y))) ∘ Fl.fin)
+      = Fl.fin ∘ (fun x => if y < x then x - y else 0) := by
+    funext b
+    by_cases h : y < b <;> simp [Fl.whereB, mask, h]
+  rw [this, ← List.map_map, nanmean_map_fin (by simpa using hx)]
+  simp [overSum]
+
+theorem absSum_eq_under_add_over (xs : List Rat) (y : Rat) : absSum xs y = underSum xs y + overSum xs y := by
+  unfold absSum underSum overSum
+  rw [← sum_map_add']
+  apply sum_map_congr
+  intro a _
+  rcases lt_trichotomy a y with h | h | h
+  · simp [h, not_lt.mpr h.le, abs_of_neg (sub_neg.mpr h)]
+  · subst h; simp
+  · simp [h, not_lt.mpr h.le, abs_of_pos (sub_pos.mpr h)]
+
+theorem spreadComp_fin {xs : List Rat} (hx : xs ≠ []) (m : Method) (y : Rat) :
+    spreadComp m (xs.map Fl.fin) (Fl.fin y) = spreadTerm m (xs.map Fl.fin) := by
+  unfold spreadComp; rw [fcstObsTerm_fin hx]; simp [Fl.whereB]
+
+theorem fcstObs_eq_under_add_over {xs : List Rat} (hx : xs ≠ []) (y : Rat) :
+    fcstObsTerm (xs.map Fl.fin) (Fl.fin y) = Fl.add (under (xs.map Fl.fin) (Fl.fin y)) (over (xs.map Fl.fin) (Fl.fin y)) := by
+  rw [fcstObsTerm_fin hx, under_fin hx, over_fin hx, Fl.add_fin, absSum_eq_under_add_over]; congr 1; ring
+
+/-! ## 8. the partition identity and chaining functions -/
+
+theorem min_fin (x a : Rat) : Fl.min (Fl.fin x) (Fl.fin a) = Fl.fin (min x a) := by
+  unfold Fl.min; by_cases h : x ≤ a <;> simp [h, min_def]
+theorem max_fin (x a : Rat) : Fl.max (Fl.fin x) (Fl.fin a) = Fl.fin (max x a) := by
+  unfold Fl.max; by_cases h : x ≤ a <;> simp [h, max_def]
+
+theorem partition_abs {a b : Rat} (hab : a ≤ b) (x y : Rat) :
+    |min x a - min y a| + |min (max x a) b - min (max y a) b| + |max x b - max y b| = |x - y| := by
+  simp only [max_def, min_def, abs]
+  split_ifs <;> linarith
+
+/-- kernel form for either method -/
+def kernel (m : Method) (xs : List Rat) (y : Rat) : Rat :=
+  match m with
+  | .ecdf => kernelEcdf xs y
+  | .fair => kernelFair xs y
+
+/-- hypotheses under which the model value is a number: at least one member, two for 'fair' -/
+def enough (m : Method) (n : Nat) : Prop :=
+  match m with
+  | .ecdf => 1 ≤ n
+  | .fair => 2 ≤ n
+
+theorem total_fin {m : Method} {xs : List Rat} (h : enough m xs.length) (y : Rat) :
+    total m (xs.map Fl.fin) (Fl.fin y) = Fl.fin (kernel m xs y) := by
+  cases m
+  · have : xs ≠ [] := by intro e; simp [enough, e] at h
+    exact total_ecdf_fin this y
+  · exact total_fair_fin h y
+
+/-- the kernel is a fixed linear combination of `absSum` and `pairAbs` (coefficients depend on M only) -/
+theorem kernel_lin (m : Method) (xs : List Rat) (y : Rat) :
+    kernel m xs y = absSum xs y * (1 / xs.length) - pairAbs xs *
+      (match m with | .ecdf => 1 / (2 * (xs.length : Rat) ^ 2) | .fair => 1 / (2 * (xs.length : Rat) * ((xs.length : Rat) - 1))) := by
+  cases m <;> simp only [kernel, kernelEcdf, kernelFair] <;> ring
+
+theorem absSum_map (v : Rat → Rat) (xs : List Rat) (y : Rat) :
+    absSum (xs.map v) (v y) = (xs.map fun x => |v x - v y|).sum := by
+  unfold absSum; rw [List.map_map]; rfl
+
+theorem pairAbs_map (v : Rat → Rat) (xs : List Rat) :
+    pairAbs (xs.map v) = (xs.map fun a => (xs.map fun b => |v a - v b|).sum).sum := by
+  unfold pairAbs; simp only [List.map_map]; rfl
+
+def vLo (a x : Rat) : Rat := min x a
+def vMid (a b x : Rat) : Rat := min (max x a) b
+def vHi (b x : Rat) : Rat := max x b
+
+theorem absSum_partition {a b : Rat} (hab : a ≤ b) (xs : List Rat) (y : Rat) :
+    absSum (xs.map (vLo a)) (vLo a y) + absSum (xs.map (vMid a b)) (vMid a b y) + absSum (xs.map (vHi b)) (vHi b y)
+      = absSum xs y := by
+  rw [absSum_map, absSum_map, absSum_map, ← sum_map_add', ← sum_map_add']
+  unfold absSum
+  apply sum_map_congr
+  intro x _
+  exact partition_abs hab x y
+
+theorem pairAbs_partition {a b : Rat} (hab : a ≤ b) (xs : List Rat) :
+    pairAbs (xs.map (vLo a)) + pairAbs (xs.map (vMid a b)) + pairAbs (xs.map (vHi b)) = pairAbs xs := by
+  rw [pairAbs_map, pairAbs_map, pairAbs_map, ← sum_map_add', ← sum_map_add']
+  unfold pairAbs
+  apply sum_map_congr
+  intro x _
+  rw [← sum_map_add', ← sum_map_add']
+  apply sum_map_congr
+  intro z _
+  exact partition_abs hab x z
+
+theorem kernel_partition (m : Method) {a b : Rat} (hab : a ≤ b) (xs : List Rat) (y : Rat) :
+    kernel m (xs.map (vLo a)) (vLo a y) + kernel m (xs.map (vMid a b)) (vMid a b y) + kernel m (xs.map (vHi b)) (vHi b y)
+      = kernel m xs y := by
+  simp only [kernel_lin, List.length_map]
+  rw [← absSum_partition hab xs y, ← pairAbs_partition hab xs]
+  ring
+
+theorem map_chainLower (a : Rat) (xs : List Rat) :
+    (xs.map Fl.fin).map (chainLower (Fl.fin a)) = (xs.map (vLo a)).map Fl.fin := by
+  simp only [List.map_map]; congr 1; funext x; simp [chainLower, vLo, min_fin]
+theorem map_chainUpper (b : Rat) (xs : List Rat) :
+    (xs.map Fl.fin).map (chainUpper (Fl.fin b)) = (xs.map (vHi b)).map Fl.fin := by
+  simp only [List.map_map]; congr 1; funext x; simp [chainUpper, vHi, max_fin]
+theorem map_chainInterval (a b : Rat) (xs : List Rat) :
+    (xs.map Fl.fin).map (chainInterval (Fl.fin a) (Fl.fin b)) = (xs.map (vMid a b)).map Fl.fin := by
+  simp only [List.map_map]; congr 1; funext x; simp [chainInterval, vMid, min_fin, max_fin]
+
+/-! ## 9. invariances of the kernel -/
+
+theorem absSum_translate (c : Rat) (xs : List Rat) (y : Rat) : absSum (xs.map (· + c)) (y + c) = absSum xs y := by
+  rw [absSum_map (· + c)]; unfold absSum; apply sum_map_congr; intro x _; congr 1; ring
+theorem pairAbs_translate (c : Rat) (xs : List Rat) : pairAbs (xs.map (· + c)) = pairAbs xs := by
+  rw [pairAbs_map (· + c)]; unfold pairAbs; apply sum_map_congr; intro x _; apply sum_map_congr; intro z _; congr 1; ring
+theorem absSum_scale (c : Rat) (xs : List Rat) (y : Rat) : absSum (xs.map (c * ·)) (c * y) = |c| * absSum xs y := by
+  rw [absSum_map (c * ·)]; unfold absSum; rw [← sum_map_const_mul]; apply sum_map_congr; intro x _
+  rw [← abs_mul]; congr 1; ring
+theorem pairAbs_scale (c : Rat) (xs : List Rat) : pairAbs (xs.map (c * ·)) = |c| * pairAbs xs := by
+  rw [pairAbs_map (c * ·)]; unfold pairAbs; rw [← sum_map_const_mul]; apply sum_map_congr; intro x _
+  rw [← sum_map_const_mul]; apply sum_map_congr; intro z _
+  rw [← abs_mul]; congr 1; ring
+
+theorem kernel_translate (m : Method) (c : Rat) (xs : List Rat) (y : Rat) :
+    kernel m (xs.map (· + c)) (y + c) = kernel m xs y := by
+  simp only [kernel_lin, List.length_map, absSum_translate, pairAbs_translate]
+theorem kernel_scale (m : Method) (c : Rat) (xs : List Rat) (y : Rat) :
+    kernel m (xs.map (c * ·)) (c * y) = |c| * kernel m xs y := by
+  simp only [kernel_lin, List.length_map, absSum_scale, pairAbs_scale]; ring
+
+/-! ## 10. sign, and zero exactly for a perfect ensemble -/
+
+theorem sum_eq_zero_of_nonneg : ∀ {l : List Rat}, (∀ v ∈ l, 0 ≤ v) → l.sum = 0 → ∀ v ∈ l, v = 0
+  | [], _, _ => by simp
+  | a :: l, H, hs => by
+    have ha : 0 ≤ a := H a (by simp)
+    have hl : 0 ≤ l.sum := List.sum_nonneg (fun v hv => H v (List.mem_cons_of_mem _ hv))
+    simp only [List.sum_cons] at hs
+    have ha0 : a = 0 := by linarith
+    have hl0 : l.sum = 0 := by linarith
+    intro v hv
+    rcases List.mem_cons.mp hv with rfl | hv
+    · exact ha0
+    · exact sum_eq_zero_of_nonneg (fun v hv => H v (List.mem_cons_of_mem _ hv)) hl0 v hv
+
+theorem kernelEcdf_eq_KK {xs : List Rat} (hx : xs ≠ []) (y : Rat) : kernelEcdf xs y = KK xs y / (xs.length : Rat) ^ 2 := by
+  rw [kernelEcdf_eq_integral hx, crpsIntegral_eq_KK hx]
+
+theorem kernelEcdf_nonneg {xs : List Rat} (hx : xs ≠ []) (y : Rat) : 0 ≤ kernelEcdf xs y := by
+  rw [kernelEcdf_eq_KK hx]; exact div_nonneg (KK_nonneg xs y) (by positivity)
+
+theorem kernelEcdf_eq_zero_iff {xs : List Rat} (hx : xs ≠ []) (y : Rat) : kernelEcdf xs y = 0 ↔ ∀ x ∈ xs, x = y := by
+  have hM := length_ne_zero hx
+  constructor
+  · intro h
+    rw [kernelEcdf_eq_KK hx, div_eq_zero_iff] at h
+    have hK : KK xs y = 0 := by
+      rcases h with h | h
+      · exact h
+      · exact absurd (pow_eq_zero_iff (by norm_num) |>.mp h) hM
+    intro x hx'
+    unfold KK at hK
+    have h1 := sum_eq_zero_of_nonneg (l := xs.map fun a => (xs.map fun b => K a b y).sum) (by
+      intro v hv; obtain ⟨a, _, rfl⟩ := List.mem_map.mp hv
+      apply List.sum_nonneg; intro w hw; obtain ⟨b, _, rfl⟩ := List.mem_map.mp hw; exact K_nonneg a b y) hK
+      _ (List.mem_map.mpr ⟨x, hx', rfl⟩)
+    have h2 := sum_eq_zero_of_nonneg (l := xs.map fun b => K x b y) (by
+      intro w hw; obtain ⟨b, _, rfl⟩ := List.mem_map.mp hw; exact K_nonneg x b y) h1
+      _ (List.mem_map.mpr ⟨x, hx', rfl⟩)
+    rw [K_self] at h2
+    exact sub_eq_zero.mp (abs_eq_zero.mp h2)
+  · intro h
+    unfold kernelEcdf
+    have h1 : absSum xs y = 0 := by
+      unfold absSum
+      rw [sum_map_congr (g := fun _ => (0 : Rat)) (fun a ha => by rw [h a ha]; simp)]; simp
+    have h2 : pairAbs xs = 0 := by
+      unfold pairAbs
+      rw [sum_map_congr (g := fun _ => (0 : Rat)) (fun a ha => by
+        rw [sum_map_congr (g := fun _ => (0 : Rat)) (fun b hb => by rw [h a ha, h b hb]; simp)]; simp)]; simp
+    rw [h1, h2]; simp
+
+/-! ## 11. member order: everything in the model is a symmetric function of the member list -/
+
+instance : RightCommutative Fl.add :=
+  ⟨fun b a1 a2 => by rw [Fl.add_assoc, Fl.add_comm a1 a2, ← Fl.add_assoc]⟩
+
+theorem fsum_perm {l l' : List Fl} (p : l.Perm l') : fsum l = fsum l' := p.foldl_eq _
+theorem valid_perm {l l' : List Fl} (p : l.Perm l') : (valid l).Perm (valid l') := p.filter _
+theorem nansum_perm {l l' : List Fl} (p : l.Perm l') : nansum l = nansum l' := fsum_perm (valid_perm p)
+theorem count_perm {l l' : List Fl} (p : l.Perm l') : count l = count l' := (valid_perm p).length_eq
+theorem nanmean_perm {l l' : List Fl} (p : l.Perm l') : nanmean l = nanmean l' := by
+  unfold nanmean
+  have h := valid_perm p
+  have he : (valid l).isEmpty = (valid l').isEmpty := by
+    have := h.length_eq
+    cases hv : valid l <;> cases hv' : valid l' <;> simp_all
+  simp only [he, fsum_perm h, h.length_eq]
+
+theorem spreadRow_perm {xs xs' : List Fl} (p : xs.Perm xs') (xi : Fl) : spreadRow xs xi = spreadRow xs' xi :=
+  nansum_perm (p.map _)
+
+theorem spreadRaw_perm {xs xs' : List Fl} (p : xs.Perm xs') : spreadRaw xs = spreadRaw xs' := by
+  unfold spreadRaw
+  have : spreadRow xs = spreadRow xs' := funext (spreadRow_perm p)
+  rw [this]; exact fsum_perm (p.map _)
+
+theorem spreadTerm_perm (m : Method) {xs xs' : List Fl} (p : xs.Perm xs') : spreadTerm m xs = spreadTerm m xs' := by
+  unfold spreadTerm spreadDen ensCount; rw [spreadRaw_perm p, count_perm p]
+
+theorem fcstObsTerm_perm {xs xs' : List Fl} (p : xs.Perm xs') (y : Fl) : fcstObsTerm xs y = fcstObsTerm xs' y :=
+  nanmean_perm (p.map _)
+
+theorem components_perm (m : Method) {xs xs' : List Fl} (p : xs.Perm xs') (y : Fl) :
+    components m xs y = components m xs' y := by
+  unfold components total under over spreadComp
+  rw [spreadTerm_perm m p, fcstObsTerm_perm p, nanmean_perm (p.map _)]
+  congr 1
+  exact nanmean_perm (p.map _)
+
+/-! ## 12. missing members are dropped -/
+
+theorem add_zero' (x : Fl) : Fl.add x (Fl.fin 0) = x := by cases x <;> simp [Fl.add]
+
+theorem valid_valid (l : List Fl) : valid (valid l) = valid l := by unfold valid; simp
+
+theorem valid_map_of_nan {f : Fl → Fl} (hf : f Fl.nan = Fl.nan) : ∀ (l : List Fl), valid (l.map f) = valid ((valid l).map f)
+  | [] => rfl
+  | a :: l => by
+    have ih := valid_map_of_nan hf l
+    cases a <;> simp_all [valid, List.filter_cons, hf, Fl.notNan, Fl.isNan]
+
+theorem foldl_add_skip_zero (g : Fl → Fl) (hg : g Fl.nan = Fl.fin 0) : ∀ (l : List Fl) (c : Fl),
+    (l.map g).foldl Fl.add c = ((valid l).map g).foldl Fl.add c
+  | [], _ => rfl
+  | a :: l, c => by
+    cases a <;> simp [valid, List.filter_cons, Fl.notNan, Fl.isNan, hg, add_zero'] <;>
+      exact foldl_add_skip_zero g hg l _
+
+theorem spreadRow_valid (xs : List Fl) (xi : Fl) : spreadRow xs xi = spreadRow (valid xs) xi := by
+  unfold spreadRow nansum
+  rw [valid_map_of_nan (f := fun xj => Fl.abs (Fl.sub xj xi)) (by simp)]
+
+theorem spreadRow_nan (xs : List Fl) : spreadRow xs Fl.nan = Fl.fin 0 := by
+  unfold spreadRow nansum
+  have : valid (xs.map fun xj => Fl.abs (Fl.sub xj Fl.nan)) = [] := by
+    unfold valid; apply List.filter_eq_nil_iff.mpr; intro a ha
+    obtain ⟨b, _, rfl⟩ := List.mem_map.mp ha; simp
+  rw [this]; rfl
+
+theorem spreadRaw_valid (xs : List Fl) : spreadRaw xs = spreadRaw (valid xs) := by
+  unfold spreadRaw fsum
+  have : spreadRow xs = spreadRow (valid xs) := funext (spreadRow_valid xs)
+  rw [this]
+  exact foldl_add_skip_zero _ (spreadRow_nan _) xs _
+
+theorem count_valid (xs : List Fl) : count xs = count (valid xs) := by unfold count; rw [valid_valid]
+
+theorem nanmean_map_valid {f : Fl → Fl} (hf : f Fl.nan = Fl.nan) (l : List Fl) :
+    nanmean (l.map f) = nanmean ((valid l).map f) := by
+  unfold nanmean; rw [valid_map_of_nan hf l]
+
+theorem fcstObsTerm_valid (xs : List Fl) (y : Fl) : fcstObsTerm xs y = fcstObsTerm (valid xs) y :=
+  nanmean_map_valid (by simp) xs
+
+theorem spreadTerm_valid (m : Method) (xs : List Fl) : spreadTerm m xs = spreadTerm m (valid xs) := by
+  unfold spreadTerm spreadDen ensCount; rw [spreadRaw_valid xs, count_valid xs]
+
+theorem components_valid (m : Method) (xs : List Fl) (y : Fl) : components m xs y = components m (valid xs) y := by
+  unfold components total under over spreadComp
+  rw [← spreadTerm_valid, ← fcstObsTerm_valid,
+    nanmean_map_valid (f := fun x => Fl.whereB (Fl.whereB (Fl.sub y x) (Fl.gt y x) (Fl.fin 0)) (mask x y)) (by simp [mask, Fl.whereB]),
+    nanmean_map_valid (f := fun x => Fl.whereB (Fl.whereB (Fl.sub x y) (Fl.gt x y) (Fl.fin 0)) (mask x y)) (by simp [mask, Fl.whereB])]
+
+/-- a missing observation or an ensemble without valid members gives NaN everywhere -/
+theorem total_nan_obs (m : Method) (xs : List Fl) : total m xs Fl.nan = Fl.nan := by
+  unfold total fcstObsTerm nanmean
+  have : valid (xs.map fun x => Fl.abs (Fl.sub x Fl.nan)) = [] := by
+    unfold valid; apply List.filter_eq_nil_iff.mpr; intro a ha
+    obtain ⟨b, _, rfl⟩ := List.mem_map.mp ha; simp
+  rw [this]; simp
+
 end SV.Lemmas.CrpsEns
